@@ -156,7 +156,23 @@ def address_write_case(ctx, case):
         if d["address"] == TARGET and not d["prog"]:
             ctx.count(f"target_address_held_by_{d['co']}_device")
     loop = new_loop()
-    out = _run(loop, lambda x: procedures.nm_individual_address_write(x, TARGET), devices, case["latency"], own=own)
+    held = case.get("held")
+    prefix = ""
+    if held is None:
+        body = lambda x: procedures.nm_individual_address_write(x, TARGET)  # noqa: E731
+    else:
+        # the application keeps its own point-to-point connection to device `held` open while the procedure runs
+        # (same XKNX / Management object); the bus truth and the rules are the same
+        prefix = "while-connection-to-a-device-is-held-open-"
+        held_address = devices[held].address
+        ctx.count("write_procedures_with_a_held_open_connection")
+        if devices[held].prog:
+            ctx.count("held_open_connection_to_a_programming_mode_device")
+
+        async def body(x):
+            async with x.management.connection(address=IndividualAddress(held_address)):
+                return await procedures.nm_individual_address_write(x, TARGET)
+    out = _run(loop, body, devices, case["latency"], own=own)
     ctx.ev()
     bus = out["bus"]
     if out["harness"]:
@@ -172,7 +188,7 @@ def address_write_case(ctx, case):
         ctx.count("receive_path_exceptions_seen_not_judged_here", len(out["link"].rx_exceptions))
     writes = [b for b in bus.broadcasts if b["apci"] == "IndividualAddressWrite"]
     ctx.count("address_read_broadcasts", sum(1 for b in bus.broadcasts if b["apci"] == "IndividualAddressRead"))
-    _judge_write_broadcasts(ctx, case, out, before, writes)
+    _judge_write_broadcasts(ctx, case, out, before, writes, prefix)
     if not writes:
         ctx.count("no_address_write")
     # conflicts created (ground truth after vs before)
@@ -198,7 +214,7 @@ def address_write_case(ctx, case):
                 ctx.count("restart_to_target")
     if out["outcome"] == "returned":
         ctx.count("write_procedure_success")
-    ctx.distinct(("aw", tuple(sorted(case["devices"])), case["latency"], case.get("own"), out["outcome"], len(writes)))
+    ctx.distinct(("aw", tuple(sorted(case["devices"])), case["latency"], case.get("own"), out["outcome"], len(writes), held))
     return out
 
 
@@ -377,7 +393,7 @@ def run(ctx):
     max_dev = ctx.scale(2, 3)
     ctx.rule = (
         "address write: all ordered populations of 0..N devices over (address in {target,A,B}) x (programming mode) x (answer|refuse|silent) x latency in "
-        "{0, 0.02 staggered, spread 0.5+i s}; serial procedures: all populations of 0..N devices over (address) x (has the wanted serial) x (answers foreign reads) x latency; "
+        "{0, 0.02 staggered, spread 0.5+i s}; the same for 1..2 devices with a connection of the application held open to an answering device during the write; serial procedures: all populations of 0..N devices over (address) x (has the wanted serial) x (answers foreign reads) x latency; "
         "authorization: all 16x16 level pairs; distinct = (procedure, population, latency, outcome)"
     )
     ctx.require("address_write_broadcasts", "address_write_justified", "no_address_write", "restart_to_target", "write_procedure_success",
@@ -386,6 +402,7 @@ def run(ctx):
                 "programming_mode_answers_before_confirmation", "serial_answers_before_confirmation",
                 "procedure_sequences", "later_calls_on_the_same_xknx", "address_writes_by_later_calls",
                 "programming_mode_device_at_the_interface_address", "serial_owner_at_the_interface_address",
+                "write_procedures_with_a_held_open_connection", "held_open_connection_to_a_programming_mode_device",
                 *(f"target_address_held_by_{co}_device" for co in CO + CO_FAULTY))
     n = 0
     one = list(itertools.product(ADDRS, (0, 1), CO))
@@ -426,6 +443,16 @@ def run(ctx):
                 n += 1
                 if ctx.mine(n):
                     serial_case(ctx, {"devices": [list(d) for d in pop], "latency": 0.02, "own": own})
+    # the application holds its own connection to one (answering, not TARGET-addressed) device open during the write procedure
+    for k in range(1, 3):
+        for pop in itertools.product(list(itertools.product(ADDRS, (0, 1), CO)), repeat=k):
+            for held in range(k):
+                if pop[held][2] != "answer" or pop[held][0] == TARGET:
+                    continue
+                for lat in (0.02, "spread"):
+                    n += 1
+                    if ctx.mine(n):
+                        address_write_case(ctx, {"devices": [list(d) for d in pop], "latency": lat, "held": held})
     # sequences of calls on the same XKNX: first call (check / write of TARGET / scan), then some devices enter programming mode,
     # then a write of TARGET or of a free address
     kinds2 = list(itertools.product(ADDRS[:2], (0, 1), CO))
